@@ -16,6 +16,7 @@ package main
 
 import (
 	"context"
+	"errors"
 	"fmt"
 	"math"
 	"os"
@@ -37,7 +38,9 @@ import (
 	"google.golang.org/protobuf/types/known/structpb"
 	"google.golang.org/protobuf/types/known/wrapperspb"
 
+	"github.com/openfga/openfga/pkg/logger"
 	"github.com/openfga/openfga/pkg/server"
+	servererrors "github.com/openfga/openfga/pkg/server/errors"
 	"github.com/openfga/openfga/pkg/storage/memory"
 	"github.com/openfga/openfga/verifharness/hx"
 )
@@ -85,10 +88,14 @@ var (
 func setup() {
 	once.Do(func() {
 		ds := memory.New()
-		srv = server.MustNewServerWithOpts(server.WithDatastore(ds), server.WithExperimentals("authzen"),
+		extra := []server.OpenFGAServiceV1Option{}
+		if os.Getenv("C19_LOG") != "" {
+			extra = append(extra, server.WithLogger(logger.MustNewLogger("text", "info", "Unix")))
+		}
+		srv = server.MustNewServerWithOpts(append(extra, server.WithDatastore(ds), server.WithExperimentals("authzen"),
 			server.WithCheckQueryCacheEnabled(true), server.WithCheckQueryCacheTTL(time.Minute),
 			server.WithListObjectsDeadline(4*time.Second), server.WithListUsersDeadline(4*time.Second),
-			server.WithRequestTimeout(6*time.Second))
+			server.WithRequestTimeout(6*time.Second))...)
 		ctx := context.Background()
 		cs, err := srv.CreateStore(ctx, &openfgav1.CreateStoreRequest{Name: "c19-base"})
 		if err != nil {
@@ -139,7 +146,13 @@ func setup() {
 var nasty = []string{"", ":", "#", "@", "*", " ", "\x00", "\xff\xfe", "user:", ":x", "a:b:c", "a#b#c", "doc:1#viewer", "user:*",
 	"‮", "é", "%00", "../..", "\n", "\t", "'", "\"", "{}", "$", "|", "01ARZ3NDEKTSV4RRFFQ69G5FAV"}
 
+// mutate returns a byte-level mutation of s.  The result is made valid UTF-8 (invalid sequences become U+FFFD):
+// a proto3 string field with invalid UTF-8 cannot arrive over gRPC / HTTP — the transport rejects the message.
 func mutate(r *hx.Rand, s string) string {
+	return strings.ToValidUTF8(mutateBytes(r, s), "\uFFFD")
+}
+
+func mutateBytes(r *hx.Rand, s string) string {
 	b := []byte(s)
 	switch r.Intn(9) {
 	case 0:
@@ -356,8 +369,12 @@ finished:
 	o.codes[name+":"+code] = true
 	if err != nil && os.Getenv("C19_DEBUG") == name {
 		m := err.Error()
-		if len(m) > 200 {
-			m = m[:200]
+		var ie servererrors.InternalError
+		if errors.As(err, &ie) {
+			m += " || internal cause: " + fmt.Sprint(ie.Unwrap())
+		}
+		if len(m) > 600 {
+			m = m[:600]
 		}
 		fmt.Fprintln(os.Stderr, "DEBUG", name, m)
 	}
@@ -678,6 +695,40 @@ func kindNumeric(r *hx.Rand, o *obs) {
 			return err
 		})
 	}
+}
+
+// kindF26 / kindF27: the inputs of the two fixed findings, kept in every run (a revert of either fix shows up as a
+// violation with this case as the replay).
+func kindF26(variant uint64, o *obs) {
+	ctx0 := context.Background()
+	cs, err := srv.CreateStore(ctx0, &openfgav1.CreateStoreRequest{Name: "c19-f26"})
+	if err != nil {
+		return
+	}
+	st := cs.GetId()
+	defer func() { _, _ = srv.DeleteStore(ctx0, &openfgav1.DeleteStoreRequest{StoreId: st}) }()
+	rr := &openfgav1.RelationReference{Type: "user", RelationOrWildcard: &openfgav1.RelationReference_Relation{Relation: ""}}
+	if variant%2 == 1 {
+		rr = &openfgav1.RelationReference{Type: "user", RelationOrWildcard: &openfgav1.RelationReference_Wildcard{}}
+	}
+	tds := []*openfgav1.TypeDefinition{{Type: "user"}, {Type: "doc", Relations: map[string]*openfgav1.Userset{"viewer": this()},
+		Metadata: &openfgav1.Metadata{Relations: map[string]*openfgav1.RelationMetadata{"viewer": {DirectlyRelatedUserTypes: []*openfgav1.RelationReference{rr}}}}}}
+	o.do("WriteAuthorizationModel", func(ctx context.Context) error {
+		_, err := srv.WriteAuthorizationModel(ctx, &openfgav1.WriteAuthorizationModelRequest{StoreId: st, TypeDefinitions: tds, SchemaVersion: "1.1"})
+		return err
+	})
+}
+
+func kindF27(variant uint64, o *obs) {
+	tok := []string{"AAAA", "MDFIVk1NQkNNR1pOVDNTRUQ0WjE3RUNYQ0E=", "eyJwayI6IkxBVEVTVF9OU0NPTkZJR19hdXRoMHN0b3JlIiwic2siOiIxem1qbXF3MWZLZExTcUoyN01MdTdqTjh0cWgifQ=="}[variant%3]
+	o.do("ListStores", func(ctx context.Context) error {
+		_, err := srv.ListStores(ctx, &openfgav1.ListStoresRequest{ContinuationToken: tok})
+		return err
+	})
+	o.do("ReadAuthorizationModels", func(ctx context.Context) error {
+		_, err := srv.ReadAuthorizationModels(ctx, &openfgav1.ReadAuthorizationModelsRequest{StoreId: baseSt, ContinuationToken: tok})
+		return err
+	})
 }
 
 func this() *openfgav1.Userset {
@@ -1061,6 +1112,10 @@ func exec(line string, st *hx.Stats) string {
 		kindAuthzen(r, o)
 	case "numeric":
 		kindNumeric(r, o)
+	case "f26":
+		kindF26(seed, o)
+	case "f27":
+		kindF27(seed, o)
 	default:
 		return "badkind"
 	}
@@ -1091,6 +1146,14 @@ func topFrames() string {
 }
 
 func gen(r *hx.Rand, n int, tier string, emit func(string), st *hx.Stats) {
+	for v := 0; v < 2; v++ {
+		emit(fmt.Sprintf("c19 f26 %d", v))
+		st.Inc("crafted-f26")
+	}
+	for v := 0; v < 3; v++ {
+		emit(fmt.Sprintf("c19 f27 %d", v))
+		st.Inc("crafted-f27")
+	}
 	kinds := []string{"check", "numeric", "batch", "list", "list", "write", "model", "model", "misc", "authzen", "check", "numeric"}
 	for i := 0; i < n; i++ {
 		k := kinds[i%len(kinds)]
